@@ -18,10 +18,10 @@ import (
 func init() {
 	Register("C18", &Oracle{
 		Rule: "(a) every sequence of exactly L repository calls over {StoreFile, FindFile, FindAllFiles, DeleteFile, StoreBatch, FindBatch, FindAllBatches, DeleteBatch} " +
-			"on nf file IDs x nb batch IDs (quick: 2x2 L=5 and 3x3 L=4; search: 2x2 L=6; thorough: 2x2 L=6 and 3x3 L=5; shorter sequences are their prefixes), each Store handing over a fresh object, " +
+			"on nf file IDs x nb batch IDs (quick: 2x2 L=5, 3x3 L=4, 1x1 L=6; search: 2x2 L=6, 3x3 L=4; thorough: 2x2 L=6, 3x3 L=5, 1x3 L=6, 3x1 L=5; shorter sequences are their prefixes), each Store handing over a fresh object, " +
 			"run on a fresh server.NewRepositoryInMemory(0,nil) and compared call by call (error/no error, identity of the returned objects, listed sets) with a sequential map model; " +
 			"the error value of deleting an absent file/batch is not compared (property silent). One recorded case per pair of first two calls. " +
-			"(b) seeded concurrent programs: a random pre-populated state, 2..8 goroutines x 1..6 calls on 1..3 file IDs x 1..3 batch IDs released together, call/return stamped by an atomic logical clock, " +
+			"(b) seeded concurrent programs: a random pre-populated state, 2..8 goroutines x 1..6 calls on 1..3 file IDs x 1..3 batch IDs lined up on a spinning barrier (at the start, or before every round of calls), each program run 4 times, call/return stamped by an atomic logical clock, " +
 			"history checked for linearizability against the same model with porcupine; distinct = distinct program text; non-trivial = at least two clients and one mutating call. " +
 			"Only pointer identity of returned objects is inspected, so the oracle is race-free under -race.",
 		Run: run,
@@ -38,7 +38,7 @@ func run(t *T) {
 	var cfgs []cfg
 	switch t.Tier {
 	case "thorough":
-		cfgs = []cfg{{2, 2, 6}, {3, 3, 5}, {1, 3, 6}, {3, 1, 6}}
+		cfgs = []cfg{{2, 2, 6}, {3, 3, 5}, {1, 3, 6}, {3, 1, 5}}
 	case "search":
 		cfgs = []cfg{{2, 2, 6}, {3, 3, 4}}
 	default:
@@ -487,16 +487,53 @@ func describeIllegal(p *program, h []histOp, init mstate, info *porcupine.Linear
 			kind = kindName[h[first].o.kind]
 		}
 	}
+	anomaly := classify(h)
 	sort.Slice(h, func(i, j int) bool { return h[i].call < h[j].call })
 	var lines []string
 	for _, x := range h {
 		lines = append(lines, fmt.Sprintf("c%d [%d,%d] %s -> %s", x.client, x.call, x.ret, x.o, x.r))
 	}
 	return &seqFailure{
-		sig:      "C18/concurrent/not-linearizable/first-unplaceable=" + kind,
-		what:     "a concurrent history of the repository has no linearization consistent with the sequential map model",
+		sig:      "C18/concurrent/not-linearizable/" + anomaly,
+		what:     "a concurrent history of the repository has no linearization consistent with the sequential map model (first call no maximal partial linearization could place: " + kind + ")",
 		input:    map[string]any{"program": p.String(), "state_after_pre": init.String(), "history": lines},
 		observed: "no total order of the calls that respects real-time order reproduces the returned results",
 		required: "every call takes effect atomically between its call and its return",
 	}
+}
+
+// classify names the simplest anomaly visible in a history that porcupine has
+// already found not linearizable (it only refines the signature).
+func classify(h []histOp) string {
+	for _, x := range h {
+		if x.o.kind == kFindAllFiles || x.o.kind == kFindAllBatches {
+			for i, tk := range x.r.toks {
+				if tk < 0 || (i > 0 && x.r.toks[i-1] == tk) {
+					return "list-with-duplicate-or-foreign-object/" + kindName[x.o.kind]
+				}
+			}
+		}
+	}
+	deleted := func(f, b int) bool {
+		for _, x := range h {
+			if x.o.f == f && (x.o.kind == kDeleteFile || (b >= 0 && x.o.kind == kDeleteBatch && x.o.b == b)) {
+				return true
+			}
+		}
+		return false
+	}
+	for i, x := range h {
+		for _, y := range h[i+1:] {
+			if x.r.err || y.r.err || x.o.kind != y.o.kind || x.o.f != y.o.f {
+				continue
+			}
+			if x.o.kind == kStoreFile && !deleted(x.o.f, -1) {
+				return "two-stores-of-one-file-id-succeeded"
+			}
+			if x.o.kind == kStoreBatch && x.o.b == y.o.b && !deleted(x.o.f, x.o.b) {
+				return "two-stores-of-one-batch-id-succeeded"
+			}
+		}
+	}
+	return "other"
 }
